@@ -23,6 +23,7 @@ func TestMain(m *testing.M) { ev.Main(m) }
 
 type Op struct {
 	Op    string `json:"op"`              // with | alias | log
+	Dead  bool   `json:"dead,omitempty"`  // with/alias: the context is derived with WithCancel and cancelled at once (it still carries its id)
 	Src   int    `json:"src,omitempty"`   // alias: index of an earlier context of this goroutine, -1 = nil source, -2 = plain context without id
 	Level string `json:"level,omitempty"` // T Tf W Wf E Ef I If TP (Trace.Println) WP EP TPf (Trace.Printf)
 	Ctx   int    `json:"ctx,omitempty"`   // log: -1 nil, -2 plain context.Context, -3 object with Cid(), >=0 index of an earlier context of this goroutine
@@ -161,6 +162,12 @@ func runCase(c Case) (st stats, err error) {
 							fresh = append(fresh, name)
 							mu.Unlock()
 						}
+					}
+					if op.Dead {
+						// a cancelled (or timed-out) context still carries its connection id
+						cctx, cancel := context.WithCancel(ctx)
+						cancel()
+						ctx = cctx
 					}
 					ctxs = append(ctxs, ctx)
 					names = append(names, name)
@@ -309,11 +316,11 @@ func genCase(t *rapid.T) Case {
 		for i := 0; i < n; i++ {
 			switch k := rapid.IntRange(0, 9).Draw(t, "opk"); {
 			case k <= 3:
-				ops = append(ops, Op{Op: "with"})
+				ops = append(ops, Op{Op: "with", Dead: rapid.IntRange(0, 3).Draw(t, "dead") == 0})
 				nctx++
 			case k == 4:
 				src := rapid.IntRange(-2, nctx-1).Draw(t, "src")
-				ops = append(ops, Op{Op: "alias", Src: src})
+				ops = append(ops, Op{Op: "alias", Src: src, Dead: rapid.IntRange(0, 5).Draw(t, "adead") == 0})
 				nctx++
 			default:
 				o := Op{Op: "log", Level: rapid.SampledFrom(levels).Draw(t, "level"), Msg: rapid.StringMatching(`[ -$&-~]{0,24}`).Draw(t, "msg")}
